@@ -21,3 +21,8 @@ def gen_config(rng, tier):
     faults = [f for f in ("coin_force", "remeasure", "view_operand", "rejected_op") if rng.random() < 0.7]
     return {"n": n, "steps": rng.randrange(4, 40), "ops": ops, "faults": faults,
             "flags": ["c05"], "max_slots": rng.choice([1, 2, 3, 4]), "dense": rng.random() < 0.3}
+
+
+# reach guard: a full-size batch in which one of these never fired means the workload or the
+# harness has rotted (exit 2, never a pass)
+REQUIRED_REACH = ['coin_force', 'rejected_op', 'view_operand', 'pivot:standby_stabilizer', 'pivot:standby_destabilizer', 'masked_update_on_mixed_state', 'mixed_state_created', 'config:compiled']
